@@ -194,6 +194,12 @@ def parse_if(p: Parser) -> IfAstNode:
     expect_token(p.next(), TokenType.LBRACE)
     body = CompoundAstNode(parse_block(p), p.current())
     else_body = None
+    # comments between the first block and else do not separate them.
+    after_block = p.pos
+    while p.current().type == TokenType.COMMENT:
+        p.next()
+    if p.current().value != "else":
+        p.pos = after_block
     if p.current().value == "else":
         p.next()
         expect_token(p.next(), TokenType.LBRACE)
